@@ -112,7 +112,7 @@ func TestPropKeysMAC(t *testing.T) {
 	wg := walledgarden.NewManager(walledgarden.DefaultConfig(), zap.NewNop())
 	wg.SetEBPFMaps(wgMap, nil, nil)
 
-	vstat.Checks(1500, 30000)
+	vstat.Checks(4000, 60000)
 	rapid.Check(t, func(rt *rapid.T) {
 		mac, cls := genMAC(rt, "mac")
 		hw := net.HardwareAddr(mac[:])
@@ -245,7 +245,7 @@ func TestPropKeysCircuitID(t *testing.T) {
 		t.Fatalf("VIOLATION sig=%s: bpf/ now looks up circuit_id_map at %d call sites; this check has no comparison for the C hash yet", sig("ebpf.HashCircuitID", "unchecked-c-implementation"), uses)
 	}
 
-	vstat.Checks(1500, 30000)
+	vstat.Checks(4000, 60000)
 	rapid.Check(t, func(rt *rapid.T) { circuitIDProperty(rt, c, loader, cidSubs, genCircuitID(rt)) })
 }
 
